@@ -265,6 +265,17 @@ exec_rep(const vcase *vc, const Flavor *fl)
 			RepCtx  &C   = W.c[k];
 			uint32_t tag = 0x52000000u | ++W.seq;
 			nng_msg *m   = h_msg(tag, 0);
+			// the application may hand over a message that still carries header words (taken from a raw socket, or
+			// re-used): a cooked replier routes by the backtrace it saved, never by what the caller left in the header
+			int junk = (int) vop_arg(o, 1, 0);
+			for (int j = 0; j < junk && j < 3; j++) {
+				uint32_t word = 0x80000def + (uint32_t) j;
+				for (int q = 0; q < 3; q++) // prefer the routing header of some other context's pending request
+					if (q != k && W.c[q].open && W.c[q].has && W.c[q].trace.size() >= 4 && vop_arg(o, 2, 0) % 2 == 0)
+						word = get32(W.c[q].trace.data() + W.c[q].trace.size() - 4);
+				nng_msg_header_append_u32(m, word);
+				vr_tag("reply_with_stale_header");
+			}
 			nng_aio *a;
 			H_OK(nng_aio_alloc(&a, NULL, NULL));
 			nng_aio_set_timeout(a, 100);
